@@ -9,6 +9,7 @@ open RJson.FP
 structure Good (a : Decimal) : Prop where
   wf : WF a
   nz : NZ a
+  tm : Trimmed a
 
 theorem two_zpow_pos' (e : ℤ) : (0 : ℚ) < 2 ^ e := by positivity
 
@@ -23,10 +24,10 @@ theorem goL_spec : ∀ (fuel : Nat) (a : Decimal) (k : Nat), Good a → 1 ≤ a.
     simp only [Decimal.shift.goL]
     by_cases hbig : k > 60
     · rw [if_pos hbig]
-      obtain ⟨b, hb, hwf, hnz, hbnd, hneg, hval⟩ := leftShift_spec a hg.wf hg.nz hnd 60 (by norm_num) (by norm_num)
+      obtain ⟨b, hb, hwf, hnz, htm, hbnd, hneg, hval⟩ := leftShift_spec a hg.wf hg.nz hnd 60 (by norm_num) (by norm_num)
       rw [hb]
       simp only []
-      obtain ⟨c, hc, hgc, hcnd, hcneg, hcval⟩ := ih b (k - 60) ⟨hwf, hnz⟩ hbnd (by omega) (by omega)
+      obtain ⟨c, hc, hgc, hcnd, hcneg, hcval⟩ := ih b (k - 60) ⟨hwf, hnz, htm⟩ hbnd (by omega) (by omega)
       refine ⟨c, hc, hgc, hcnd, by rw [hcneg, hneg], fun htr => ?_⟩
       obtain ⟨t1, v1⟩ := hcval htr
       obtain ⟨t2, v2⟩ := hval t1
@@ -34,8 +35,8 @@ theorem goL_spec : ∀ (fuel : Nat) (a : Decimal) (k : Nat), Good a → 1 ≤ a.
       rw [v1, v2, mul_assoc, ← pow_add]
       congr 2; omega
     · rw [if_neg hbig]
-      obtain ⟨b, hb, hwf, hnz, hbnd, hneg, hval⟩ := leftShift_spec a hg.wf hg.nz hnd k hk1 (by omega)
-      exact ⟨b, hb, ⟨hwf, hnz⟩, hbnd, hneg, hval⟩
+      obtain ⟨b, hb, hwf, hnz, htm, hbnd, hneg, hval⟩ := leftShift_spec a hg.wf hg.nz hnd k hk1 (by omega)
+      exact ⟨b, hb, ⟨hwf, hnz, htm⟩, hbnd, hneg, hval⟩
 
 theorem goR_spec : ∀ (fuel : Nat) (a : Decimal) (k : Nat), Good a → 1 ≤ a.nd → 1 ≤ k → k ≤ 60 * fuel →
     Good (Decimal.shift.goR 60 fuel a k) ∧ 1 ≤ (Decimal.shift.goR 60 fuel a k).nd ∧ (Decimal.shift.goR 60 fuel a k).neg = a.neg ∧
@@ -48,8 +49,8 @@ theorem goR_spec : ∀ (fuel : Nat) (a : Decimal) (k : Nat), Good a → 1 ≤ a.
     simp only [Decimal.shift.goR]
     by_cases hbig : k > 60
     · rw [if_pos hbig]
-      obtain ⟨hwf, hnz, hpos, hneg, hval⟩ := rightShift_spec a hg.wf 60 (by norm_num) (by norm_num)
-      obtain ⟨g2, nd2, neg2, val2⟩ := ih (rightShift a 60) (k - 60) ⟨hwf, hnz⟩ (hpos hg.nz hnd) (by omega) (by omega)
+      obtain ⟨hwf, hnz, htm, hpos, hneg, hval⟩ := rightShift_spec a hg.wf 60 (by norm_num) (by norm_num)
+      obtain ⟨g2, nd2, neg2, val2⟩ := ih (rightShift a 60) (k - 60) ⟨hwf, hnz, htm⟩ (hpos hg.nz hnd) (by omega) (by omega)
       refine ⟨g2, nd2, by rw [neg2, hneg], fun htr => ?_⟩
       obtain ⟨t1, v1⟩ := val2 htr
       obtain ⟨t2, v2⟩ := hval t1
@@ -57,8 +58,8 @@ theorem goR_spec : ∀ (fuel : Nat) (a : Decimal) (k : Nat), Good a → 1 ≤ a.
       rw [v1, v2, div_div, ← pow_add]
       congr 2; omega
     · rw [if_neg hbig]
-      obtain ⟨hwf, hnz, hpos, hneg, hval⟩ := rightShift_spec a hg.wf k hk1 (by omega)
-      exact ⟨⟨hwf, hnz⟩, hpos hg.nz hnd, hneg, hval⟩
+      obtain ⟨hwf, hnz, htm, hpos, hneg, hval⟩ := rightShift_spec a hg.wf k hk1 (by omega)
+      exact ⟨⟨hwf, hnz, htm⟩, hpos hg.nz hnd, hneg, hval⟩
 
 /-- **`Shift(k)`** for `|k| ≤ 3840`: never panics, keeps the normal form, and when the `trunc` flag is off afterwards
     it was off before and the value is exactly `a · 2^k` -/
